@@ -605,4 +605,33 @@ theorem timestampNs_ok (year : Int) (month day : Nat) (tod tzHours : Int) :
   exact ⟨_, rfl⟩
 
 
+theorem timestampText_ok (lit : Text) (h : timePartOk lit = true) : ∃ r, timestampText lit = .ok r := by
+  unfold timestampText
+  simp only []
+  split
+  · rename_i y m d _
+    split
+    · exact timestampNs_ok _ _ _ _ _
+    · rename_i ts hts
+      have hbd : ∃ rest, byteDrop 1 ts = some rest := by
+        unfold timePartOk at h
+        rw [hts] at h
+        cases ts with
+        | nil => simp at h
+        | cons c cs =>
+          simp only [beq_iff_eq] at h
+          exact ⟨cs, by simp [byteDrop, h]⟩
+      obtain ⟨rest, hrest⟩ := hbd
+      have htz : ∃ z, tzSeconds ts = .ok z := by
+        unfold tzSeconds
+        simp only [hrest]
+        split
+        · exact ⟨_, rfl⟩
+        · split <;> exact ⟨_, rfl⟩
+      obtain ⟨z, hz⟩ := htz
+      simp only [hz]
+      exact timestampNs_ok _ _ _ _ _
+  · exact ⟨0, rfl⟩
+
+
 end Varpulis.ParserText
